@@ -86,6 +86,8 @@ impl<S: Stream> Stream for MergeBounded<S> {
                 // if a stream completed, remove it from the queue
                 Poll::Ready(Some((i, None))) => {
                     self.streams.tasks.remove(i);
+                    #[cfg(futures_buffered_verif)]
+                    crate::verif::ev(crate::verif::kind::SLOT_VACATE, self.streams.shared.verif_header(), i, 0);
                 }
                 Poll::Pending => break Poll::Pending,
                 Poll::Ready(None) => break Poll::Ready(None),
